@@ -387,6 +387,12 @@ pub fn gen_collect(files: &BTreeMap<String, syn::File>, out: &mut String) {
         Ok(t) => writeln!(out, "Definition gen_extend : extend_loop := {}.\n", t).unwrap(),
         Err(e) => println!("ERROR GenCollect.v extend: {}", e),
     }
+    // the owning builder of the `internals` API has the same loop
+    let r: R<String> = (|| extend_loop(find_fn(files.get("internal.rs").ok_or("internal.rs missing")?, "ArrayBuilder", "extend")?))();
+    match r {
+        Ok(t) => writeln!(out, "Definition gen_array_builder_extend : extend_loop := {}.\n", t).unwrap(),
+        Err(e) => println!("ERROR GenCollect.v array_builder_extend: {}", e),
+    }
     for (name, file, func, boxed) in [("gen_try_from_iter", "lib.rs", "try_from_iter", false), ("gen_try_boxed_from_iter", "impl_alloc.rs", "try_boxed_from_iter", true)] {
         let r: R<Vec<String>> = (|| steps(find_fn(files.get(file).ok_or("file missing")?, "GenericArray", func)?, boxed))();
         match r {
